@@ -116,6 +116,33 @@ func init() {
 		zz + "DeepEqual": func(i *Interp, _ *frame, _ *ssa.Function, a []value) value {
 			return deepEqual(a[0], a[1], map[[2]interface{}]bool{})
 		},
+		// Kill ends the process of the current invocation (kill -9): control returns to the
+		// innermost Try of the harness without running any deferred function of the target,
+		// and every goroutine started since is dropped.
+		zz + "Kill": func(i *Interp, _ *frame, _ *ssa.Function, a []value) value {
+			panic(killSignal{})
+		},
+		zz + "Try": func(i *Interp, caller *frame, _ *ssa.Function, a []value) value {
+			if i.cs.cur.id != 0 {
+				fault("zz.Try outside the harness goroutine")
+			}
+			killed := false
+			func() {
+				defer func() {
+					if r := recover(); r != nil {
+						if _, ok := r.(killSignal); !ok {
+							panic(r)
+						}
+						killed = true
+					}
+				}()
+				i.call(caller, 0, a[0], nil)
+			}()
+			if killed {
+				i.afterKill()
+			}
+			return TBool(killed)
+		},
 		zz + "OneOf": func(i *Interp, _ *frame, _ *ssa.Function, a []value) value {
 			s := a[0].(*Term)
 			for _, c := range a[1].([]value) {
@@ -132,6 +159,8 @@ func init() {
 }
 
 var traceObj int
+
+type killSignal struct{}
 
 // deepEqual is reflect.DeepEqual over interpreter values, producing a Bool term.
 func deepEqual(x, y value, seen map[[2]interface{}]bool) *Term {
